@@ -208,7 +208,7 @@ func c04Tier(tier string) int {
 	if tier == "thorough" {
 		return 2000000
 	}
-	return 25000
+	return 250000
 }
 
 func c04Run(c *core.Ctx, idx int) {
